@@ -54,7 +54,7 @@ class Rda(Engine):
             if r < 0.5:
                 ks = []
                 for _ in range(rng.choice([1, 2, 4])):
-                    ks.append(rng.choice([0, 1, 2, 10, 100, 512, 4096, 10 ** 6] + ([-1, -30] if self.faults else [])))
+                    ks.append(rng.choice([0, 1, 2, 10, 100, 512, 4096, 10 ** 6] + ([-1, -30, -999] if self.faults else [])))
                 ops.append('skips ' + ' '.join(map(str, ks)))
             elif r < 0.6:
                 ops.append('skips')
